@@ -91,6 +91,39 @@ Definition run_explicit (args : list bytes) : bytes :=
       | _, _, _ => err "parse" end
   | _, _, _ => err "fields" end.
 
+(* "C05 opened in=.. bout=<B;B;..> tamper=<T> [vec=..]"  — a transaction that was NOT blinded by the model (a real-network
+   vector): the case gives an opened form — for the repository's vectors a FABRICATED one, the true openings being unknown:
+   any assignment of assets, amounts and blinding factors that balances gives the same ideal verdicts —
+   B = <asset hex32>:<amount dec>:<abf hex32>:<vbf hex32>:<script hex|->:<c|e>   (c = confidential asset and value, e = explicit) *)
+Definition parse_bout (s : bytes) : option (secrets * bytes * bool) :=
+  match colons s with
+  | [a; v; abf; vbf; sc; k] =>
+      match nhex a, zdec v, zhex abf, zhex vbf, hexarg sc with
+      | Some a, Some v, Some abf, Some vbf, Some sc => Some (mkSec a abf v vbf, sc, bytes_eqb k "c"%lb)
+      | _, _, _, _, _ => None end
+  | _ => None end.
+Definition build_bout (ss : list secrets) (e : secrets * bytes * bool) : option txout :=
+  let '(s, sc, conf) := e in
+  if conf then match with_txout_secrets i_pubk i_ecdh sc 1 1 s (map sinput_of_secrets ss) with OVal o => Some o | _ => None end
+  else Some (mkOut (AExp (s_asset s)) (VExp (s_value s)) NNull sc None None).
+Definition run_opened (args : list bytes) : bytes :=
+  match field "in"%lb args, field "bout"%lb args, field "tamper"%lb args with
+  | Some ins, Some outs, Some ts =>
+      match all_some (map parse_in (semis ins)), all_some (map parse_bout (semis outs)), parse_tamper ts with
+      | Some ins, Some outs, Some t =>
+          match all_some (map (build_bout (all_secrets ins)) outs) with
+          | Some touts =>
+              let T := mkTx (map snd ins) touts in
+              let spent := map (fun e => fst (fst e)) ins in
+              let x := (T, spent) in
+              let '(t2, spent2) := apply t x in
+              "app="%lb ++ show_bool (applicable t x) ++ " chg="%lb ++ show_bool (changes t x)
+              ++ " base="%lb ++ show_verdict (verify_tx_amt_proofs T spent)
+              ++ " tampered="%lb ++ show_verdict (verify_tx_amt_proofs t2 spent2)
+          | None => err "build" end
+      | _, _, _ => err "parse" end
+  | _, _, _ => err "fields" end.
+
 Definition run (args : list bytes) : bytes :=
   match args with
   | kind :: rest =>
@@ -99,5 +132,6 @@ Definition run (args : list bytes) : bytes :=
         | Some c, Some ts => match parse_tamper ts with Some t => run_tamper c t | None => err "tamper" end
         | _, _ => err "parse" end
       else if bytes_eqb kind "explicit"%lb then run_explicit rest
+      else if bytes_eqb kind "opened"%lb then run_opened rest
       else err "kind"
   | _ => err "args" end.
